@@ -24,6 +24,8 @@ from pysparkling.stat_counter import CovarianceCounter, StatCounter
 
 ID = 'C17'
 KERNELS = ['Gen/StatCounter.v: sc_merge', 'Gen/StatCounter.v: sc_mergeStats',
+           'Gen/Covariance.v: sc_init_n/mu/m2 (+ shape of StatCounter.__init__)', 'Gen/Covariance.v: cc_init_* (CovarianceCounter.__init__)',
+           'Gen/Covariance.v: sc_self_merge_checked (shape of the `other is self` path)',
            'Gen/Covariance.v: cc_add', 'Gen/Covariance.v: cc_merge',
            'Gen/Covariance.v: sc_variance', 'Gen/Covariance.v: sc_sampleVariance', 'Gen/Covariance.v: sc_sum',
            'Gen/Covariance.v: sc_accessors_checked (shape)',
